@@ -85,7 +85,14 @@ pub fn gen_case(rng: &mut Rng, lim: &Limits) -> Case {
         audio: Arc::new(audio),
         cfg,
         block,
-        mode: if rng.flip() { FillMode::Int } else { FillMode::Bytes },
+        // one source in eight chains inner sources: an empty block ahead of the data in every
+        // second read (full blocks all the same, so every stream oracle applies unchanged)
+        mode: match (rng.flip(), rng.chance(1, 8)) {
+            (true, false) => FillMode::Int,
+            (false, false) => FillMode::Bytes,
+            (true, true) => FillMode::IntChained,
+            (false, true) => FillMode::BytesChained,
+        },
         hint: rng.flip(),
     }
 }
